@@ -434,6 +434,69 @@ def run_polling_receivers(ctx):
                         [(type(x).__name__, x[:24] if isinstance(x, str) else x.hex()[:20]) for x in delivered], size=len(eff) + len(frames) + nsil)
 
 
+def run_wrapped_dispatcher(ctx):
+    """sends on an object equipped with `WrappedDispatcher` (an external, rel-style event loop that QUEUES writes and drains
+    the queue when the socket is writable), the transport accepting bytes in pieces: several sends before and between the
+    drains — once everything is drained the wire is the frames, whole, in the order they were sent.  Oracle only."""
+    import websocket
+    from websocket import _dispatcher
+    rnd = ctx.rng("wrapped-dispatcher")
+
+    class QueueLoop:
+        """the write side of a rel-like loop: buffwrite() queues; drain() writes what is queued, as far as the socket takes it"""
+
+        def __init__(self):
+            self.q = bytearray()
+            self.sock = None
+            self.send = None
+
+        def signal(self, *a):
+            pass
+
+        def abort(self):
+            pass
+
+        def buffwrite(self, sock, data, send, on_error):
+            self.sock, self.send = sock, send
+            self.q += data
+
+        def drain(self, max_calls):
+            n = 0
+            while self.q and n < max_calls:
+                k = self.send(self.sock, bytes(self.q))
+                n += 1
+                if k:
+                    del self.q[:k]
+
+    key = b"\x21\x43\x65\x87"
+    for it in range(300 if ctx.thorough() else 60):
+        acc = rnd.choice([None, [7], [46, 3], [1, 1, 1], [200, 10], [3, 1000]])
+        payloads = [bytes([0x61 + j]) * rnd.choice([0, 1, 5, 40, 126, 300]) for j in range(rnd.randint(2, 4))]
+        sock = simnet.SimSocket([], accepts=acc)
+        sock.timeout = 5.0
+        ws = websocket.WebSocket()
+        ws.sock, ws.connected = sock, True
+        ws.set_mask_key(lambda n: key)
+        loop = QueueLoop()
+        ws.dispatcher = _dispatcher.WrappedDispatcher(None, None, loop, lambda *a: None)
+        rets = []
+        try:
+            for j, p in enumerate(payloads):
+                rets.append(ws.send_binary(p))
+                if rnd.random() < 0.4:
+                    loop.drain(rnd.randint(1, 3))          # the loop gets to run for a moment between two sends
+            loop.drain(10000)
+            res = "ok"
+        except Exception as e:  # noqa
+            res = "X:" + common.canon_exc(e)
+        want = b"".join(client_frame(p, key) for p in payloads)
+        ctx.case(key=("wrapped", it, str(acc), tuple(len(p) for p in payloads)), nontrivial=bool(acc), cls=f"wrapped-dispatcher:pieces={int(bool(acc))}:n={len(payloads)}")
+        if res != "ok" or bytes(sock.sent) != want or rets != [len(client_frame(p, key)) for p in payloads]:
+            ctx.violate("one-intact-frame-under-short-writes", "frames-reordered-or-torn-through-the-external-dispatcher's-write-queue",
+                        {"op": "send_binary x n on an object with WrappedDispatcher (queued writes), drains in between", "payload_lens": [len(p) for p in payloads],
+                         "accepts": acc}, want.hex()[:160], f"{res}; wire {bytes(sock.sent).hex()[:240]}; returned {rets}", size=len(payloads) + (len(acc) if acc else 0))
+
+
 def frame_receiver_run(stream_chunks, nframes, nthreads, schedule, share):
     """workers call recv_frame() directly (no read lock there: only the frame buffer's own lock protects the parse state)."""
     import websocket
@@ -683,11 +746,12 @@ def run(ctx):
     ctx.rule = ("(a) every composition of the frame length as an accept pattern for frames of 6..10 bytes, sampled patterns for 125..100000 "
                 "bytes; (b) 2 threads x every schedule of length 9 (11), 3 threads x every schedule of length 6 (8), random 2-4 threads with "
                 "random payloads/patterns/schedules, co-simulated with the Lean interleaving model; (c) 2-3 receiver threads, fragmented "
-                "messages with control frames, random schedules, the Lean receivers model driven by the observed lock-acquisition order; (c') 1-3 receivers polling with a socket timeout, silences between and inside the frames of fragmented messages (oracle only); (d) one receiver answering 1-3 pings while 1-2 threads send under short writes, co-simulated with the Lean programs model (the receiver = a thread whose program is the pongs); (a'') the write loop over the transport glue: every list of up to 3 `_socket.send` worlds (short writes incl. 0 and over-long, would-block with the wait expiring or not, timeouts, SSL EOF, OS errors) x blocking/non-blocking, against Model.SendGlue.sendLoop; (a') the short-write sends again on an object equipped with a dispatcher; (b') 2-4 threads each sending 0-3 frames (send_binary / ping / pong), 2 threads x every schedule of length 10 (12), co-simulated with the Lean programs model at yield-point granularity; the library's own locks are scheduled (none assigned by the harness). non-trivial = more than one piece / more than one context switch")
+                "messages with control frames, random schedules, the Lean receivers model driven by the observed lock-acquisition order; (c') 1-3 receivers polling with a socket timeout, silences between and inside the frames of fragmented messages (oracle only); (d) one receiver answering 1-3 pings while 1-2 threads send under short writes, co-simulated with the Lean programs model (the receiver = a thread whose program is the pongs); (a'') the write loop over the transport glue: every list of up to 3 `_socket.send` worlds (short writes incl. 0 and over-long, would-block with the wait expiring or not, timeouts, SSL EOF, OS errors) x blocking/non-blocking, against Model.SendGlue.sendLoop; (a''') sends through `WrappedDispatcher` with a queueing external loop and a transport that takes bytes in pieces; (a') the short-write sends again on an object equipped with a dispatcher; (b') 2-4 threads each sending 0-3 frames (send_binary / ping / pong), 2 threads x every schedule of length 10 (12), co-simulated with the Lean programs model at yield-point granularity; the library's own locks are scheduled (none assigned by the harness). non-trivial = more than one piece / more than one context switch")
     run_short_writes(ctx)
     run_eagain(ctx)
     from props import c12_glue
     c12_glue.run_sendloop(ctx)
+    run_wrapped_dispatcher(ctx)
     run_senders(ctx)
     run_programs(ctx)
     run_receivers(ctx)
